@@ -47,7 +47,10 @@ RULE = (
     "grammar and predict the occupancy after the call and the low-water mark of each of the nine allocators. Oracle: per-type balance, "
     "no exhaustion event, every returned buffer clean, serde snapshot of the allocator equal before/after. A case is non-trivial the "
     "first time its (kind, non-empty word) pair occurs, so distinct_nontrivial counts distinct words. bc: random insert/remove/clear "
-    "sequences on BondContainer<usize> with dyadic weights, state after every operation compared with the model; soak: long mixed "
+    "sequences on BondContainer<usize> with dyadic weights, state after every operation compared with the model, plus oracle-only "
+    "bcfloat sequences with non-dyadic weights emptied through remove() and pushed through the pool (must come back blank despite "
+    "f64 rounding residue); a third of the Ising pool scenarios and half of the soak runs use non-dyadic couplings on frustrated "
+    "graphs with RVB on (cleanliness of returned containers under total_weight drift); soak: long mixed "
     "runs with the aggregated log (balance after every call, cleanliness, exhaustion) and the snapshot before/after."
 )
 
